@@ -361,9 +361,14 @@ class SecopClient(ProxyClient):
             if clear_shutdown:
                 self._shutdown.clear()
             self.txq = queue.Queue(30)
-            self.pending = queue.Queue(30)
             # release callers still waiting for a reply on the previous connection
             # (a concurrent disconnect might not yet have done it)
+            try:
+                while True:  # requests parked behind a request with the same key
+                    self.pending.get(block=False)[1].set()
+            except queue.Empty:
+                pass
+            self.pending = queue.Queue(30)
             for _, event, _ in list(self.active_requests.values()):
                 event.set()
             self.active_requests.clear()
